@@ -256,5 +256,8 @@ def check(ctx, env):
     from . import codec_rules as K
     K.r11_3_order(ctx, prog, rule="R6.4")
     K.r11_4_pairing(ctx, prog, rule="R6.4")
+    # the RTO the schedule is built from is the configured / estimated one: RttCalcuator::new stores it unchanged, rto() reads it back
+    from . import c15
+    c15.r15_3_config_path(ctx, prog, rule="R6.3")
     if env.tier == "thorough":
         r6_5_default_schedule(ctx, prog)
